@@ -40,3 +40,65 @@ pub fn get_grammar_hash(src: RustSrcRef) -> Option<&str> {
     }
     None
 }
+
+/// Verification hooks: stage taps and progress counters.
+/// Compiled only with the off-by-default `kiki_verif` feature.
+#[cfg(feature = "kiki_verif")]
+pub mod verif_hooks {
+    pub use crate::pipeline::prelude::*;
+
+    use std::cell::Cell;
+
+    pub const SITE_FIRST_SETS: usize = 0;
+    pub const SITE_CLOSURE: usize = 1;
+    pub const SITE_MACHINE_WORKLIST: usize = 2;
+    pub const SITE_UNIQUE_IDENTIFIER: usize = 3;
+    pub const SITE_COUNT: usize = 4;
+
+    pub const STEP_LIMIT_PANIC_PREFIX: &str = "KIKI_VERIF_STEP_LIMIT";
+    pub const OSET_PANIC_PREFIX: &str = "KIKI_VERIF_OSET";
+
+    thread_local! {
+        static TICKS: [Cell<u64>; SITE_COUNT] = Default::default();
+        static LIMIT: Cell<u64> = const { Cell::new(u64::MAX) };
+        static OSET_CHECKS: Cell<u64> = const { Cell::new(0) };
+    }
+
+    /// Zeroes the counters of the current thread and sets the per-site step limit.
+    pub fn reset(limit: u64) {
+        TICKS.with(|ticks| ticks.iter().for_each(|t| t.set(0)));
+        LIMIT.with(|l| l.set(limit));
+        OSET_CHECKS.with(|c| c.set(0));
+    }
+
+    pub fn ticks() -> [u64; SITE_COUNT] {
+        TICKS.with(|ticks| {
+            let mut out = [0; SITE_COUNT];
+            for (o, t) in out.iter_mut().zip(ticks.iter()) {
+                *o = t.get();
+            }
+            out
+        })
+    }
+
+    pub fn oset_checks() -> u64 {
+        OSET_CHECKS.with(|c| c.get())
+    }
+
+    pub(crate) fn tick(site: usize) {
+        let n = TICKS.with(|ticks| {
+            let n = ticks[site].get() + 1;
+            ticks[site].set(n);
+            n
+        });
+        if n > LIMIT.with(|l| l.get()) {
+            // Disarm, so that unwinding code cannot trip the limit again.
+            LIMIT.with(|l| l.set(u64::MAX));
+            panic!("{STEP_LIMIT_PANIC_PREFIX} site={site} steps={n}");
+        }
+    }
+
+    pub(crate) fn count_oset_check() {
+        OSET_CHECKS.with(|c| c.set(c.get() + 1));
+    }
+}
